@@ -135,6 +135,7 @@ def apply_op(mpc, secfld, op, x, c):
 
 
 def run(shard, rec):
+    budget_hits = [0]
     from vlib import env
     env.prepare()
     from vlib import sim
@@ -181,7 +182,7 @@ def run(shard, rec):
                 holder['lifted'] = secfld.subfield is not None
             return True
         w0 = sim.World(m, t, no_prss, seed=sseed, policy='eager', clear_caches=True)
-        w0.run(probe, cpu_seconds=90)
+        w0.run(probe, cpu_seconds=20)
         if w0.ok_results() is None:
             return 'unsupported', w0
         return holder, w0
@@ -271,7 +272,7 @@ def run(shard, rec):
             case = [cfgname, str(fdesc), si, policy, sseed] if shard['kind'] != 'exh' else [cfgname, str(fdesc), si]
             if not rec.wants(case):
                 continue
-            w = sim.World(m, t, no_prss, seed=sseed, policy=policy, clear_caches=False).run(make_program(fdesc, spec), cpu_seconds=90)
+            w = sim.World(m, t, no_prss, seed=sseed, policy=policy, clear_caches=False).run(make_program(fdesc, spec), cpu_seconds=20)
             rec.count('programs_run')
             if holder['lifted']:
                 rec.count('lifted_programs_run')
@@ -284,6 +285,11 @@ def run(shard, rec):
                 ec = 'to_bits-unsupported-field' if 'Binary field or prime field required' in errs else ('step-limit' if w.status in ('STEP-LIMIT', 'CPU-LIMIT') else 'other')
                 rec.violation(f'{what}: run did not complete {w.status} {errs[:200]}', dict(feats, mechanism='no-completion', error_class=ec,
                                                                                          has_bits_rt=any(st[0] == 'bits_rt' for st in spec['steps'])), wit, case=case)
+                if w.status in ('STEP-LIMIT', 'CPU-LIMIT'):
+                    budget_hits[0] += 1
+                    if budget_hits[0] >= 5:
+                        rec.note_side(f'{cfgname}: {budget_hits[0]} programs exhausted their step/CPU budget (all reported); the rest of this shard is not run')
+                        return
                 continue
             if any(r[0] != res[0][0] for r in res):
                 rec.violation(f'{what}: parties obtained different values', dict(feats, mechanism='parties-disagree'), wit, case=case)
